@@ -155,7 +155,7 @@ impl Scenario for EcdsaNet {
                     }
                     let pairing = *rng.pick(&["right", "right", "right", "other_msg", "other_hash", "other_key", "neg_key"]);
                     events.push(json!({"op": "deliver", "slot": rng.below(slots), "pairing": pairing, "verifier": *rng.pick(&["verify_digest", "verify_hashbuf", "sig_verify_message", "pk_verify_message", "is_valid_message"]),
-                        "other_key": gen_key(rng), "flip": rng.below(1 << 16), "other_encoding": rng.chance(1, 3)}));
+                        "other_key": gen_key(rng), "flip": rng.below(1 << 16), "other_encoding": rng.chance(1, 3), "wire": *rng.pick(&["", "", "der", "compact"])}));
                 }
                 2 => {
                     if slots == 0 {
@@ -537,7 +537,17 @@ impl Scenario for EcdsaNet {
                         None => digest_of(&hash, &msg),
                     };
                     let he = hash_enum(&hash);
-                    let sig = &sl.sig;
+                    // the signature travels as an object, or as DER / compact bytes that the receiving side parses again
+                    let wire = jstr(ev, "wire");
+                    let travelled: Option<Signature> = match wire {
+                        "der" => guard(|| Signature::from_der(&sl.sig.to_der_bytes()).ok()).ok().flatten(),
+                        "compact" => guard(|| Signature::from_compact_bytes(&sl.sig.to_compact_bytes(None)).ok()).ok().flatten(),
+                        _ => None,
+                    };
+                    if !wire.is_empty() {
+                        ctx.probe(if travelled.is_some() { "signature_travelled_as_bytes" } else { "signature_bytes_not_reparsed" });
+                    }
+                    let sig = travelled.as_ref().unwrap_or(&sl.sig);
                     let got = guard(|| match verifier {
                         "verify_hashbuf" => ECDSA::verify_hashbuf(&digest, &pk, sig).unwrap_or(false),
                         "sig_verify_message" => sig.verify_message(&msg, &pk),
